@@ -167,6 +167,12 @@ def run_case(case):
             counters["twins"] += 1
         else:
             A, B = netgen.make(case["fam"], case["seed"]), netgen.make(case["fam2"], case["seed"] + 1)
+        if kind in ("entry-mix", "twins-entry-mix", "AB") and rng.integers(0, 2):
+            # models whose subgraph carries no name (an optional field): whatever stands in for it must not depend on the entry point or the file name
+            A.sg_name = None
+            if rng.integers(0, 2):
+                B.sg_name = None
+            counters["unnamed_subgraph_histories"] = counters.get("unnamed_subgraph_histories", 0) + 1
         ma, mb = write_model(d, "a", A), write_model(d, "b", B)
         cfgA = cfggen.rand_cfg(rng)
         cfgB = dict(cfgA) if kind != "acc-mix" else cfggen.rand_cfg(rng)
